@@ -22,6 +22,8 @@ PROP = {  # commit subject prefix -> (property, what failed)
     "fix: literal braces of an interpolated string": ("C02", "'\"{}{a}\"' and '\"{a}\\{\"' emitted as invalid f-strings"),
     "fix: a definition or assignment that ends a function body": ("C02", "'def h() -> Int => <newline> def r: Int := match ...' emitted 'return r: int = 4'"),
     "fix: an escaped backslash does not escape": ("C02", "'\"\\\\\"\"' (escaped backslash before the closing quote) lexed past its end; emitted literal unterminated"),
+    "fix: a parameter declared nullable accepts None": ("C06", "'def f(a: Int?)' refused f(None) and f(n) with n: Int? in every context (162 over-rejections)"),
+    "fix: the classes caught by a handle are no longer caught": ("C08", "an unhandled, undeclared raise after a complete handle for the same class, or inside one of its arms, was accepted (226 cases)"),
 }
 def main():
     data = json.load(open(P)) if os.path.exists(P) else {"findings": []}
